@@ -163,7 +163,7 @@ def one_op(p, inner=False):
         if p.get("stress"):
             parts += [(6, st.tuples(st.just("stress"),
                                     st.sampled_from(["roundoff", "roundoff", "tiny_e", "tiny_e", "huge_xy", "huger_xy", "tiny_xy", "inch_feed",
-                                                     "tiny_merge", "huge_merge", "tiny_z", "leave_far"]),
+                                                     "tiny_merge", "huge_merge", "tiny_z", "leave_far", "tiny_base", "tiny_base"]),
                                     st.integers(1, 9), st.integers(0, 8)))]
         if not inner and p.get("visits", True):
             parts += [(4, op_visit(p))]
@@ -491,6 +491,12 @@ class Renderer(object):  # pylint: disable=too-many-instance-attributes
             if self.e_ok() and not self.retracted:
                 tiny = n * 10.0 ** -(5 + m % 6)
                 self.g("G1" + " E" + fmt((pr.e + tiny) / pr.u, 15))
+        elif what == "tiny_base":
+            # re-base E so that the next retraction / recovery of the cycle ends at a tiny value
+            if self.e_ok():
+                tiny = n * 10.0 ** -(5 + m % 6)
+                base = tiny if self.retracted else self.delta + tiny
+                self.g("G92 E" + fmt(base / pr.u, 15))
         elif what in ("huge_xy", "huger_xy", "leave_far") and pr.abs:
             scale = 1e15 if what != "huger_xy" else 1e22
             if what == "leave_far":
